@@ -77,6 +77,7 @@ gdom = z3.Function('gdom', Int, Int)                        # domain size of map
 grng = z3.Function('grng', Int, Int)                        # range size
 rowlits = z3.Function('rowlits', Int, Int, ISeq)            # the variables f(u,v) of domain element u, v over its allowed images
 collits = z3.Function('collits', Int, Int, ISeq)            # the variables f(u,v) of range element v, u over its allowed preimages
+bsel = z3.Function('bsel', Asg, Int, Int, Int)           # the number (0-based) spelled by the bits of element i of binary mapping g under the assignment
 bitlen = z3.Function('bitlen', Int, Int)                    # number of bits of a binary mapping with m images
 rnbrs = z3.Function('rnbrs', Int, Int, ISeq)       # right neighbours of left vertex u in the (abstract) bipartite graph g
 apseq = z3.Function('apseq', Int, Int, ISeq)       # [start, start+1, ..., start+n-1]
@@ -216,7 +217,7 @@ def cmp_op(op, lhs, rhs):
                  z3.If(op == S('<'), lhs < rhs, z3.If(op == S('>'), lhs > rhs, z3.BoolVal(False))))))
 
 
-FUNCS = dict(cntstar=cntstar, imemp=imemp, imem=imem, ipos=ipos, aps=aps, pairlits=pairlits, pl1=pl1, pl2=pl2, sqr=sqr, isqf=isqf, isorted=isorted, cnb=cnb, nbj=nbj, nbv=nbv, pvar=pvar, lnbrs=lnbrs, gadj=gadj, degsum=degsum, cvar=cvar, tlen=tlen, tcoef=tcoef, tlit=tlit, tunit=tunit, tnegc=tnegc, tset=tset, wsum=wsum, thaszero=thaszero,
+FUNCS = dict(bsel=bsel, cntstar=cntstar, imemp=imemp, imem=imem, ipos=ipos, aps=aps, pairlits=pairlits, pl1=pl1, pl2=pl2, sqr=sqr, isqf=isqf, isorted=isorted, cnb=cnb, nbj=nbj, nbv=nbv, pvar=pvar, lnbrs=lnbrs, gadj=gadj, degsum=degsum, cvar=cvar, tlen=tlen, tcoef=tcoef, tlit=tlit, tunit=tunit, tnegc=tnegc, tset=tset, wsum=wsum, thaszero=thaszero,
              tmaxabs=tmaxabs, tnonneg=tnonneg, tmpos=tmpos, tzpos=tzpos, mkcon=mkcon, olen=olen, osnoc=osnoc, otake=otake, holds=holds,
              osat=osat, oappc=oappc, omaxabs=omaxabs, ohaszero=ohaszero, onormal=onormal,
              ilen=ilen, iget=iget, inil=inil, isnoc=isnoc, iapp=iapp, ineg=ineg, haszero=haszero,
